@@ -2,14 +2,18 @@
 from vlib.common import *
 
 META = {
-    "text": "Lean theorems (listing_exactly_once, walk_next_complete, previous_is_previous, previous_walk_complete, offset_walk_complete, filter_roundtrip, cursor_roundtrip, cursor_roundtrip_offset, cursor_accepted_back) about "
+    "text": "Lean theorems (listing_exactly_once, walk_next_complete, previous_is_previous, previous_walk_complete, resume_after_previous_complete (after next ... previous, "
+            "following next until hasMore is false delivers the rest of the list from the page one is on), has_more_iff_next (every page, however reached, says hasMore exactly "
+            "when a next token comes with it), offset_walk_complete, filter_roundtrip, cursor_roundtrip, cursor_roundtrip_offset, cursor_accepted_back) about "
             "Model.Paginate.pageCol/pageOff (UsingColumn/UsingOffset evaluated on an abstract table by a where/order/limit evaluator) and "
             "Model.Cursor.encode*/decode* (the JSON value inside a cursor token, filter expression included), for every table with a unique "
             "pagination column, every caller filter, every page size >= 1, both orders and every filter expression; the walks are stated "
             "at token level (each `next`/`previous` goes through encode and decode). The model is tied to the real "
             "bunpaginate.UsingColumn/UsingOffset/Iterate/Extract/EncodeCursor/UnmarshalCursor, query.ParseJSON, "
             "ledgerstore.PaginatedQueryOptions and the v1/v2 list handlers by a seeded differential over bun + an evaluating fake SQL "
-            "driver; an independent oracle evaluates the property on the implementation's own outputs.",
+            "driver; an independent oracle evaluates the property on the implementation's own outputs at EVERY position of a traversal: the forward pages, "
+            "every page reached through `previous` (from each page, and all the way back from the last one), and the walk resumed from each of those with the real Iterate / "
+            "over HTTP (it must deliver exactly the rest of the list; hasMore <=> next token <=> the list goes on after the page).",
     "note": "Trusted: Lean kernel (axioms propext/Classical.choice/Quot.sound at most); the harness and its fake SQL driver (evaluates "
             "SELECT * FROM items [WHERE (c op n) AND ...] ORDER BY id dir [LIMIT k] [OFFSET m]); Go's encoding/json, encoding/base64 and "
             "time formatting (a token is modelled down to the JSON value it contains); bun's SQL rendering; the SQL that the real "
@@ -60,6 +64,50 @@ def token_filter(tok):
     if not isinstance(tok, dict):
         return None
     return (tok.get("filters") or {}).get("qb")
+
+
+def has_more_due(want, data):
+    """must a page showing `data` say hasMore?  Exactly when the list goes on after the page's last item (None: cannot tell)."""
+    if not data:
+        return False if not want else None
+    if data[-1] not in want:
+        return None
+    return want.index(data[-1]) < len(want) - 1
+
+
+def rest_from(want, data):
+    """the rest of the list from the first item of the page on"""
+    if not data or data[0] not in want:
+        return None
+    return want[want.index(data[0]):]
+
+
+def flags_oracle(v, label, where, want, data, has_more, has_next):
+    """clauses every page of a traversal must meet, however it was reached: hasMore <=> a next token came with it, and
+    hasMore <=> the list goes on after the page (a client following `next` until hasMore is false stops HERE otherwise)"""
+    if has_next != has_more:
+        v.append(({"class": "walk", "list": label, "defect": "hasMore-vs-next", "reached": where},
+                  "page %s reached through %s: hasMore=%s but a next token is %s" % (data[:6], where, has_more, "present" if has_next else "absent")))
+    due = has_more_due(want, data)
+    if due is not None and due != has_more:
+        v.append(({"class": "walk", "list": label, "defect": "hasMore-wrong", "reached": where},
+                  "page %s reached through %s says hasMore=%s, the list %s after it" % (data[:6], where, has_more, "goes on" if due else "ends")))
+
+
+def resume_oracle(v, label, k, want, page_data, delivered, err):
+    """after `previous` from page k the client is on page k-1: following `next` until hasMore is false from THERE must deliver
+    exactly the rest of the list (the property quantifies over every position in the traversal)"""
+    if err:
+        v.append(({"class": "resume", "list": label, "defect": "error"}, "following `next` from the page before page %d failed: %s" % (k, err)))
+        return
+    rest = rest_from(want, page_data)
+    if rest is None:
+        return  # the page itself is wrong: reported by the `previous` clauses
+    if delivered != rest:
+        kind = "duplicate" if len(set(delivered)) != len(delivered) else ("missing" if set(delivered) != set(rest) else "order")
+        v.append(({"class": "resume", "list": label, "defect": kind},
+                  "next, ..., previous back to page %d %s, then `next` until hasMore=false delivers %s; the rest of the list from there is %s"
+                  % (k - 1, page_data[:6], delivered[:12], rest[:12])))
 
 
 def walk_oracle(inp, out, order, label):
@@ -121,9 +169,27 @@ def walk_oracle(inp, out, order, label):
         if e["back"] != pages[k]["data"]:
             v.append(({"class": "previous", "list": label, "defect": "no-way-back"},
                       "next of (previous of page %d) shows %s instead of page %d" % (k, e["back"], k)))
+        # the page reached through `previous` is a position of the traversal like any other
+        flags_oracle(v, label, "previous", want, e["page"]["data"], e["page"]["hasMore"], e["page"]["next"] is not None)
+        rs = e.get("resume")
+        if rs is None:
+            v.append(({"class": "resume", "list": label, "defect": "not-run"}, "the harness did not resume the walk from the page before page %d" % k))
+        else:
+            for rp in rs["pages"]:
+                flags_oracle(v, label, "previous-then-next", want, rp["data"], rp["hasMore"], rp["hasNext"])
+            resume_oracle(v, label, k, want, e["page"]["data"], [i for rp in rs["pages"] for i in rp["data"]], rs.get("error"))
+    for p in pages:
+        flags_oracle(v, label, "next", want, p["data"], p["hasMore"], p["next"] is not None)
     bw = out.get("backwalk", [])
     if [d for d in bw] != [p["data"] for p in pages[:-1]][::-1]:
         v.append(({"class": "previous", "list": label, "defect": "backwalk"}, "following `previous` from the last page yields %s" % bw[:6]))
+    bf = out.get("backflags")
+    if bf is None or len(bf) != len(bw):
+        v.append(({"class": "resume", "list": label, "defect": "not-run"}, "no hasMore/next flags for the pages of the way back"))
+    else:
+        for d, f in zip(bw, bf):
+            if isinstance(d, list):
+                flags_oracle(v, label, "previous (way back)", want, d, f["hasMore"], f["hasNext"])
     return v
 
 
@@ -182,6 +248,20 @@ def http_oracle(inp, out):
             v.append(({"class": "previous", "list": ep, "defect": "wrong-page"}, "previous of page %d shows %s" % (k, e.get("data"))))
         elif q0 is not None and e.get("query") is not None and norm(e["query"]["opts"]) != norm(q0["opts"]):
             v.append(({"class": "cursor-changed-query", "list": ep, "lost": "filter-or-options"}, "previous of page %d stands for another query" % k))
+        if e["status"] == 200 and "data" in e:
+            if "resume" not in e or "hasMore" not in e:
+                v.append(({"class": "resume", "list": ep, "defect": "not-run"}, "the harness did not resume the walk from the page before page %d" % k))
+                continue
+            flags_oracle(v, ep, "previous", want, e["data"], e["hasMore"], e["hasNext"])
+            bad = next((r for r in e["resume"] if r.get("status") != 200 or "data" not in r), None)
+            for r in e["resume"]:
+                if "data" in r:
+                    flags_oracle(v, ep, "previous-then-next", want, r["data"], r["hasMore"], r["hasNext"])
+            resume_oracle(v, ep, k, want, e["data"], e["data"] + [i for r in e["resume"] for i in r.get("data", [])],
+                          ("GET ?cursor=<next> answers %s" % bad.get("status")) if bad else None)
+    for s in steps:
+        if "data" in s:
+            flags_oracle(v, ep, "next", want, s["data"], s["hasMore"], s["next"] is not None)
     for k in range(1, len(steps)):
         if steps[k].get("previous") is None:
             v.append(({"class": "previous", "list": ep, "defect": "presence"}, "page %d has no previous" % k))
@@ -235,7 +315,7 @@ def run(ctx):
     seen, nontrivial = set(), 0
     dist = {"kind": {}, "collection_size": {}, "page_size_vs_size": {}, "order": {}, "filter_in_cursor": {}, "cursor_filter_form": {},
             "token_outcome": {}, "endpoint": {}, "step_outcome": {}, "pages_per_walk": {}}
-    positions = 0
+    positions = resumed = 0
 
     def bump(d, k):
         dist[d][str(k)] = dist[d].get(str(k), 0) + 1
@@ -259,7 +339,8 @@ def run(ctx):
             bump("filter_in_cursor", bool(inp.get("body")))
             np_ = len(out.get("pages", []))
             bump("pages_per_walk", "1" if np_ <= 1 else "2-5" if np_ <= 5 else "6-20" if np_ <= 20 else ">20")
-            positions += np_ + len(out.get("prevs", []))
+            positions += np_ + len(out.get("prevs", [])) + len(out.get("backwalk", []))
+            resumed += sum(len((e.get("resume") or {}).get("pages", [])) for e in out.get("prevs", []))
             nt = np_ >= 2
         elif kind in ("colstep", "offstep"):
             bump("step_outcome", "panic" if "panic" in out else out.get("res"))
@@ -275,6 +356,7 @@ def run(ctx):
         elif kind == "http":
             bump("endpoint", inp["endpoint"])
             positions += len(out.get("steps", [])) + len(out.get("prevs", []))
+            resumed += sum(len(e.get("resume") or []) for e in out.get("prevs", []))
             nt = len(out.get("steps", [])) >= 2
         if nt and h not in seen:
             nontrivial += 1
@@ -282,8 +364,9 @@ def run(ctx):
     ctx.cov["evaluations"] = len(inputs)
     ctx.cov["distinct_nontrivial"] = nontrivial
     ctx.cov["positions_visited"] = positions
+    ctx.cov["pages_of_walks_resumed_after_previous"] = resumed
     ctx.cov["rule"] = ("grid: every collection size 0..40 (ids with gaps, stored unordered) x page sizes {1,2,n-1,n,n+1,100} x both orders x "
-                       "{UsingColumn,UsingOffset}, each walk visiting every position (next, previous, next-of-previous, the way back); plus seeded "
+                       "{UsingColumn,UsingOffset}, each walk visiting every position (next, previous, next-of-previous, the walk resumed with Iterate from every page reached through previous, the way back); plus seeded "
                        "random walks (negative / >2^64 ids, a caller WHERE, a filter and a point in time inside the cursor), single evaluations of "
                        "arbitrary query states (incl. page size 0 and states no walk reaches), cursor round trips of the three endpoint query types "
                        "with v2 filter bodies and v1 constructor trees, forged token contents, and the v1/v2 list endpoints over HTTP; "
